@@ -94,6 +94,64 @@ theorem C18_twoColumns_clusters {α : Type} [DecidableEq α] (cx : Ctx α)
     ∃ x, ed.insertTwoColumnsOpts cx p l r g w pct o = .ok x :=
   insertTwoColumnsOpts_total_triv cx htriv hb ed p l r g w pct o hg
 
+/-! ### D20: a negative width pads nothing, exactly like 0
+
+Before repair D20 `AlignLineLeft/Right/Center` and `MakeTable` computed `width - len` on the raw
+width; in Go's 64-bit `int` that difference wraps around to a huge positive number for a width within
+`len` of `math.MinInt`, and `gem.RepeatStr` / the distribution loop ran practically for ever.  The
+repaired functions (and the model, `Model/Manip.lean`, `Model/Table.lean`) clamp a negative width to 0
+first, so that every subtraction is `w' - len` with `0 ≤ w'` and `0 ≤ len`, which cannot leave the
+`int` range; the theorems below say that the clamp changes no result (`…Core_clamp`: the unclamped
+ideal-integer functions agree with the clamped ones), i.e. every negative width behaves as 0. -/
+
+theorem C18_align_negative_width_is_zero {α : Type} (cx : Ctx α) (t : List α) (w : Int) (hw : w < 0) :
+    alignLeft cx t w = alignLeft cx t 0 ∧ alignRight cx t w = alignRight cx t 0 ∧
+      alignCenter cx t w = alignCenter cx t 0 := by
+  unfold alignLeft alignRight alignCenter
+  rw [if_pos hw, if_neg (by decide)]
+  exact ⟨rfl, rfl, rfl⟩
+
+theorem C18_makeTable_negative_width_is_zero {α : Type} (cx : Ctx α) (d : List (List (List α))) (w : Int)
+    (hdr brd : Bool) (cs : List α) (hw : w < 0) :
+    makeTable cx d w hdr brd cs = makeTable cx d 0 hdr brd cs := by
+  unfold makeTable
+  rw [if_pos hw, if_neg (by decide)]
+
+/-- D21, the same for InsertDefinitionsTableOpts (`width - leftWidth - minBetween` wrapped around
+and the definitions were not wrapped at all): every negative width behaves as 0 … -/
+theorem C18_defTable_negative_width_is_zero {α : Type} [DecidableEq α] (cx : Ctx α) (ed : Editor α) (p : Int)
+    (defs : List (List α × List α)) (w : Int) (o : Options α) (hw : w < 0) :
+    ed.insertDefTableOpts cx p defs w o = ed.insertDefTableOpts cx p defs 0 o := by
+  unfold Editor.insertDefTableOpts
+  rw [if_pos hw, if_neg (by decide)]
+
+/-- … and on ideal integers the unclamped function gives the same result (Wrap takes every width
+below 2 as 2) -/
+theorem C18_defTable_clamp_conservative {α : Type} [DecidableEq α] (cx : Ctx α) (ed : Editor α) (p : Int)
+    (defs : List (List α × List α)) (w : Int) (o : Options α) :
+    ed.insertDefTableOpts cx p defs w o = ed.insertDefTableOptsCore cx p defs w o :=
+  Editor.insertDefTableOptsCore_clamp cx ed p defs w o
+
+/-- the clamp is not a change of behaviour where nothing overflows: on ideal integers the unclamped
+functions give the same results -/
+theorem C18_align_clamp_conservative {α : Type} (cx : Ctx α) (t : List α) (w : Int) :
+    alignLeft cx t w = alignLeftCore cx t w ∧ alignRight cx t w = alignRightCore cx t w ∧
+      alignCenter cx t w = alignCenterCore cx t w :=
+  ⟨alignLeftCore_clamp cx t w, alignRightCore_clamp cx t w, alignCenterCore_clamp cx t w⟩
+
+theorem C18_makeTable_clamp_conservative {α : Type} (cx : Ctx α) (d : List (List (List α))) (w : Int)
+    (hdr brd : Bool) (cs : List α) : makeTable cx d w hdr brd cs = makeTableCore cx d w hdr brd cs :=
+  makeTableCore_clamp cx d w hdr brd cs
+
+/-- "  one" aligned to the width `math.MinInt` (and `math.MinInt + 3`, the width at which the
+unrepaired `width - len` wrapped around to `math.MaxInt`) -/
+example : alignLeft cxA [0x20, 0x20, 0x6f, 0x6e, 0x65] (-9223372036854775808) = [0x6f, 0x6e, 0x65] ∧
+    alignRight cxA [0x6f, 0x6e, 0x65, 0x20] (-9223372036854775806) = [0x6f, 0x6e, 0x65] ∧
+    alignCenter cxA [0x20, 0x6f, 0x6e, 0x65, 0x20] (-9223372036854775805) = [0x6f, 0x6e, 0x65] := by decide
+/-- the table of the D20 witness: [[a, b], [c, d]] at the width `math.MinInt` -/
+example : makeTable cxA [[[0x61], [0x62]], [[0x63], [0x64]]] (-9223372036854775808) false false [] =
+    [[0x61, 0x20, 0x20, 0x62], [0x63, 0x20, 0x20, 0x64]] := by decide
+
 /-! non-vacuity: the inputs on which the unrepaired code panicked -/
 example : ∃ r, (Editor.root ([] : List Int) {}).alignOpts cxA 1 8 { preservePara := true } = .ok r := ⟨_, rfl⟩
 
